@@ -1,5 +1,6 @@
 SPECIFICATION MCSpec
 CONSTANTS
   Emit = FALSE
+  Stride = 1
 INVARIANTS TypeOK IntCases RoundTrips FloatCases SpecialCases SweepCases EmitCase
 CHECK_DEADLOCK FALSE
